@@ -1,0 +1,33 @@
+//go:build verif
+
+package argon2
+
+// Verification hooks (build tag "verif" only): select the BlaMka path and
+// expose the block functions for a block-level differential.  Nothing here
+// is compiled without the tag.
+
+// VerifSetUseSSE4 sets the useSSE4 dispatch flag (only read by the amd64
+// assembly build) and returns the previous value.
+func VerifSetUseSSE4(v bool) (old bool) {
+	old = useSSE4
+	useSSE4 = v
+	return old
+}
+
+// VerifUseSSE4 reports the current flag.
+func VerifUseSSE4() bool { return useSSE4 }
+
+// VerifProcessBlockGeneric runs the portable compression function.
+func VerifProcessBlockGeneric(out, in1, in2 *[128]uint64, xor bool) {
+	processBlockGeneric((*block)(out), (*block)(in1), (*block)(in2), xor)
+}
+
+// VerifProcessBlock runs the function that processBlocks actually calls in
+// this build (processBlock / processBlockXOR).
+func VerifProcessBlock(out, in1, in2 *[128]uint64, xor bool) {
+	if xor {
+		processBlockXOR((*block)(out), (*block)(in1), (*block)(in2))
+	} else {
+		processBlock((*block)(out), (*block)(in1), (*block)(in2))
+	}
+}
